@@ -48,7 +48,10 @@ var scopeTable = []scopeEntry{
 	sc("CMD-3", `:help-branch`, "C14", "C17"),
 	sc("CMD-3", `.`, "C14"),
 	// help scan
-	sc("CMD-4", `:(every-token-tested|index-of-help|none-found|help-token-found)`, "C14"),
+	sc("CMD-4", `:vector-only`, "C03", "C14"),
+	sc("CMD-4", `:index-of-help`, "C14", "C10"), // C10: a spelling of an option occurrence that the help scan takes for a help token
+	sc("CMD-4", `:(every-token-tested|none-found|help-token-found)`, "C14"),
+	sc("CMD-4", `.`, "C14", "C09"),
 	// version
 	sc("CMD-5", `:(version-branch|version-first)`, "C14"),
 	sc("CMD-5", `\.Version$`, "C14"),
@@ -102,8 +105,13 @@ var scopeTable = []scopeEntry{
 	// the option matcher's exits
 	sc("MAT-4", `:exit#`, "C01", "C12"),
 	// the group matcher
-	sc("MAT-6", `:gives-up`, "C01", "C11", "C12"),
-	sc("MAT-6", `.`, "C12", "C03", "C10"),
+	sc("MAT-6", `:(gives-up|offered-unless-excluded)`, "C01", "C11", "C12"),
+	sc("MAT-6", `.`, "C12", "C03", "C10", "C11"), // C11: an occurrence taken out of a folded token on one side of a swap
+	// skip counts and give-up grounds of the two option matchers
+	sc("MAT-7", `:skip@`, "C10", "C11", "C02", "C01", "C06", "C09"),    // C09: an undeclared-looking token shields what is behind it
+	sc("MAT-7", `:foreign@`, "C10", "C11", "C02", "C01", "C06", "C12"), // C12: an env-backed option env-matches where the scan gives up
+	sc("MAT-7", `.`, "C10", "C11", "C02", "C01", "C06"),
+	sc("MAT-8", `:gives-up-only`, "C10", "C19", "C01", "C02", "C13", "C11", "C06", "C12"),
 	// matcher loops and bounds
 	sc("MAT-12", `:(str)?bounds@`, "C03"),
 	// options-ended flag and the `--` token
@@ -115,6 +123,7 @@ var scopeTable = []scopeEntry{
 	sc("MAT-2", `(\(Args\)|:verbatim)`, "C02", "C09", "C13", "C15", "C19"),
 	// sibling guards
 	sc("MAT-8", `\[flag\]`, "C10", "C19"),
+	sc("MAT-8", `.`, "C10", "C19", "C01", "C02", "C13", "C11", "C06"),
 	// parser typestate
 	sc("PAR-2", `:(back@|panic\[|meaning)`, "C08"),
 	sc("PAR-5", `:(panic-type@|recover\[)`, "C03", "C08"),
